@@ -165,4 +165,714 @@ theorem retract_inv {s s' : State} {l : List TaskId} {o : Out} (hi : Inv s) (h :
     cases h
     exact processRetracted_inv _ _ _ _ _ hi hp
 
+/-! ### task-map changes that keep every state -/
+
+/-- ids, states and requests are the same; consumer lists lost members or gained `c` -/
+def ConsRel (c : Option TaskId) (ts ts' : List Task) : Prop :=
+  taskIds ts' = taskIds ts ∧
+  ∀ u, (findTask ts u = none → findTask ts' u = none) ∧
+    ∀ x, findTask ts u = some x → ∃ x', findTask ts' u = some x' ∧ x'.state = x.state ∧ x'.rq = x.rq ∧
+      ∀ y ∈ x'.consumers, y ∈ x.consumers ∨ some y = c
+
+theorem ConsRel.refl (c : Option TaskId) (ts : List Task) : ConsRel c ts ts :=
+  ⟨rfl, fun _ => ⟨id, fun x hx => ⟨x, hx, rfl, rfl, fun _ hy => Or.inl hy⟩⟩⟩
+
+theorem ConsRel.trans {c : Option TaskId} {a b d : List Task} (h1 : ConsRel c a b) (h2 : ConsRel c b d) : ConsRel c a d := by
+  refine ⟨h2.1.trans h1.1, fun u => ⟨fun hn => (h2.2 u).1 ((h1.2 u).1 hn), ?_⟩⟩
+  intro x hx
+  obtain ⟨x', hx', e1, e2, e3⟩ := (h1.2 u).2 x hx
+  obtain ⟨x'', hx'', f1, f2, f3⟩ := (h2.2 u).2 x' hx'
+  refine ⟨x'', hx'', f1.trans e1, f2.trans e2, ?_⟩
+  intro y hy
+  rcases f3 y hy with h | h
+  · exact e3 y h
+  · exact Or.inr h
+
+theorem ConsRel.put {c : Option TaskId} {ts : List Task} {t' told : Task} (ht : findTask ts t'.id = some told)
+    (hs : t'.state = told.state) (hq : t'.rq = told.rq) (hc : ∀ y ∈ t'.consumers, y ∈ told.consumers ∨ some y = c) :
+    ConsRel c ts (putTask ts t') := by
+  refine ⟨taskIds_putTask _ _, fun u => ?_⟩
+  rw [findTask_putTask]
+  by_cases e : u = t'.id
+  · subst e
+    simp only [if_true, ht]
+    refine ⟨fun h => (by cases h), fun x hx => ?_⟩
+    simp only [Option.map_some, Option.some.injEq] at hx ⊢
+    subst hx
+    exact ⟨t', rfl, hs, hq, hc⟩
+  · simp only [e, if_false]
+    exact ⟨id, fun x hx => ⟨x, hx, rfl, rfl, fun _ hy => Or.inl hy⟩⟩
+
+theorem ConsRel.stOf {c : Option TaskId} {ts ts' : List Task} (h : ConsRel c ts ts') (u : TaskId) : stOf ts' u = stOf ts u := by
+  unfold Core.stOf
+  cases hf : findTask ts u with
+  | none => rw [(h.2 u).1 hf]
+  | some x =>
+    obtain ⟨x', hx', e, _⟩ := (h.2 u).2 x hf
+    rw [hx']; simp [e]
+
+/-- consumer lists only lose members -/
+theorem Inv4.consShrink {ts ts' ws rd rqs} (h : Inv4 ts ws rd rqs) (hr : ConsRel none ts ts') : Inv4 ts' ws rd rqs := by
+  refine ⟨by rw [hr.1]; exact h.nd, h.ls.congr_tasks hr.stOf, ?_, ?_⟩
+  · intro d dt hd c hc st hst
+    rw [hr.stOf] at hst
+    cases hf : findTask ts d with
+    | none => rw [(hr.2 d).1 hf] at hd; cases hd
+    | some x =>
+      obtain ⟨x', hx', _, _, e3⟩ := (hr.2 d).2 x hf
+      rw [hx'] at hd; cases hd
+      rcases e3 c hc with h1 | h1
+      · exact h.cw d x hf c h1 st hst
+      · cases h1
+  · intro t task l hf hs
+    cases hf0 : findTask ts t with
+    | none => rw [(hr.2 t).1 hf0] at hf; cases hf
+    | some x =>
+      obtain ⟨x', hx', e1, e2, _⟩ := (hr.2 t).2 x hf0
+      rw [hx'] at hf; cases hf
+      rw [e2]; exact h.mn t x l hf0 (e1 ▸ hs)
+
+/-- a free task is erased -/
+theorem Inv4.erase {ts ws rd rqs} (h : Inv4 ts ws rd rqs) {t : TaskId} (hf : Free3 ws rd t) :
+    Inv4 (eraseTask ts t) ws rd rqs := by
+  have hfe := fun x => findTask_eraseTask h.nd t x
+  refine ⟨(taskIds_eraseTask_sublist _ _).nodup h.nd, h.ls.mv_erase h.nd hf, ?_, ?_⟩
+  · intro d dt hd c hc st hst
+    rw [hfe] at hd
+    unfold stOf at hst; rw [hfe] at hst
+    split at hd
+    · cases hd
+    · split at hst
+      · cases hst
+      · exact h.cw d dt hd c hc st hst
+  · intro u task l hu hs
+    rw [hfe] at hu
+    split at hu
+    · cases hu
+    · exact h.mn u task l hu hs
+
+/-! ### `try_remove_redirection` -/
+
+/-- what `try_remove_redirection` does to the four components -/
+theorem tryRemoveRedirection_spec {s s' : State} {t : TaskId} {rq : Nat} (h : s.tryRemoveRedirection t rq = .ok s') :
+    s'.tasks = s.tasks ∧ s'.rqs = s.rqs ∧
+    ((s.redirects.find? (·.1 = t) = none ∧ s'.workers = s.workers ∧ s'.redirects = s.redirects) ∨
+     (∃ w v r wk A F P F', s.redirects.find? (·.1 = t) = some (t, w, v) ∧ s.rq rq v = .ok r ∧
+        findWorker s.workers w = some wk ∧ wk.assign = .sn A F P ∧ t ∈ A ∧ freeAdd F wk.total r.entries = .ok F' ∧
+        s'.workers = putWorker s.workers { wk with assign := .sn (A.erase t) F' P } ∧
+        s'.redirects = s.redirects.filter (·.1 ≠ t))) := by
+  simp only [State.tryRemoveRedirection] at h
+  split at h
+  · rename_i hn
+    cases h
+    exact ⟨rfl, rfl, Or.inl ⟨hn, rfl, rfl⟩⟩
+  · rename_i t0 w v hsome
+    have ht0 : t0 = t := by have := (rd_mem_of_find hsome).2; simpa using this
+    subst ht0
+    split at h
+    · cases h
+    · rename_i r hr
+      obtain ⟨wk, wk', hfw, hf, rfl⟩ := withWorker_spec h
+      obtain ⟨A, F, P, F', ha, hfa, hm, rfl⟩ := removeSn_spec hf
+      exact ⟨rfl, rfl, Or.inr ⟨w, v, r, wk, A, F, P, F', hsome, hr, hfw, ha, hm, hfa, rfl, rfl⟩⟩
+
+/-- on the list → state invariant (for ANY task map: the function does not read it) -/
+theorem tryRemoveRedirection_ls {s s' : State} {t : TaskId} {rq : Nat} {ts : List Task}
+    (hl : LS3 ts s.workers s.redirects) (h : s.tryRemoveRedirection t rq = .ok s') :
+    LS3 ts s'.workers s'.redirects ∧ Shr s.workers s.redirects s'.workers s'.redirects ∧
+    (∀ x v, (t, x, v) ∉ s'.redirects) ∧
+    (∀ w0, stOf ts t = some (.retracting w0) → Free3 s'.workers s'.redirects t) := by
+  obtain ⟨_, _, hc⟩ := tryRemoveRedirection_spec h
+  rcases hc with ⟨hn, hw, hr⟩ | ⟨w, v, r, wk, A, F, P, F', hsome, _, hfw, ha, hm, _, hw, hr⟩
+  · rw [hw, hr]
+    refine ⟨hl, Shr.refl _ _, fun x v => rd_find_none hn x v, ?_⟩
+    intro w0 hs
+    exact hl.free_of_retracting hs (fun x v => rd_find_none hn x v)
+  · rw [hw, hr]
+    have hmem : (t, w, v) ∈ s.redirects := (rd_mem_of_find hsome).1
+    have hwid : wk.id = w := findWorker_some_id hfw
+    refine ⟨?_, ?_, ?_, ?_⟩
+    · exact hl.mv_unredirect (v := v) (wk := wk) (by simpa [hwid] using hmem) (by simpa [hwid] using hfw)
+        (by simp [wAsg, ha]) (by simp [wPre, ha]) (by simp [wMn, ha])
+    · refine ⟨?_, ?_, ?_, fun x hx => (List.mem_filter.mp hx).1⟩
+      · exact (Shr.put (rd := s.redirects) (wk := wk) (wk' := { wk with assign := .sn (A.erase t) F' P })
+          (by simpa [hwid] using hfw) (by simp [wAsg, ha]; exact List.erase_sublist) (by simp [wPre, ha])
+          (by simp [wMn, ha])).a
+      · exact (Shr.put (rd := s.redirects) (wk := wk) (wk' := { wk with assign := .sn (A.erase t) F' P })
+          (by simpa [hwid] using hfw) (by simp [wAsg, ha]; exact List.erase_sublist) (by simp [wPre, ha])
+          (by simp [wMn, ha])).p
+      · exact (Shr.put (rd := s.redirects) (wk := wk) (wk' := { wk with assign := .sn (A.erase t) F' P })
+          (by simpa [hwid] using hfw) (by simp [wAsg, ha]; exact List.erase_sublist) (by simp [wPre, ha])
+          (by simp [wMn, ha])).m
+    · intro x v' hx
+      have := (List.mem_filter.mp hx).2
+      simp at this
+    · intro w0 hs
+      exact hl.free_after_unredirect (v := v) (wk := wk) hs (by simpa [hwid] using hmem) (by simpa [hwid] using hfw)
+        (by simp [wAsg, ha]) (by simp [wPre, ha]) (by simp [wMn, ha])
+
+/-! ### `Core::remove_task` -/
+
+theorem removeConsumer_rel {ts ts' : List Task} {d c : TaskId} (h : removeConsumer ts d c = .ok ts') :
+    ConsRel none ts ts' := by
+  simp only [removeConsumer] at h
+  split at h
+  · cases h; exact ConsRel.refl _ _
+  · rename_i dt hd
+    split at h
+    · cases h
+    · cases h
+      have hid : dt.id = d := findTask_some_id hd
+      exact ConsRel.put (told := dt) (by simpa [hid] using hd) rfl rfl
+        (fun y hy => Or.inl (List.mem_of_mem_erase hy))
+
+theorem removeConsumers_rel (deps : List TaskId) (ts ts' : List Task) (c : TaskId)
+    (h : removeConsumers ts c deps = .ok ts') : ConsRel none ts ts' := by
+  induction deps generalizing ts with
+  | nil => simp only [removeConsumers] at h; cases h; exact ConsRel.refl _ _
+  | cons d rest ih =>
+    simp only [removeConsumers] at h
+    split at h
+    · cases h
+    · rename_i ts1 h1
+      exact (removeConsumer_rel h1).trans (ih _ h)
+
+/-- `remove_task`: the returned state is the task's state; the task map is the erased one up to consumer lists -/
+theorem removeTask_spec {s s' : State} {id : TaskId} {st : TS} (h : s.removeTask id = .ok (s', st)) :
+    stOf s.tasks id = some st ∧ s'.workers = s.workers ∧ s'.redirects = s.redirects ∧ s'.rqs = s.rqs ∧
+    ConsRel none (eraseTask s.tasks id) s'.tasks := by
+  simp only [State.removeTask, State.task?] at h
+  split at h
+  · cases h
+  · rename_i task ht
+    have hst := stOf_of_find ht
+    split at h
+    · split at h
+      · cases h
+      · rename_i s1 hq
+        have hc := queueRemove_core hq
+        split at h
+        · split at h
+          · cases h
+          · rename_i ts hrc
+            cases h
+            refine ⟨hst, hc.w, hc.r, hc.q, ?_⟩
+            have := removeConsumers_rel _ _ _ _ hrc
+            rw [hc.t] at this
+            exact this
+        · cases h
+          exact ⟨hst, hc.w, hc.r, hc.q, by rw [hc.t]; exact ConsRel.refl _ _⟩
+    · split at h
+      · cases h
+      · rename_i s1 hq
+        have hc := queueRemove_core hq
+        cases h
+        exact ⟨hst, hc.w, hc.r, hc.q, by rw [hc.t]; exact ConsRel.refl _ _⟩
+    · cases h
+      exact ⟨hst, rfl, rfl, rfl, ConsRel.refl _ _⟩
+
+theorem removeTask_inv {s s' : State} {id : TaskId} {st : TS} (hi : Inv s) (hf : Free s id)
+    (h : s.removeTask id = .ok (s', st)) : Inv s' := by
+  obtain ⟨_, hw, hr, hq, hc⟩ := removeTask_spec h
+  unfold Inv; rw [hw, hr, hq]
+  exact (Inv4.erase hi hf).consShrink hc
+
+/-- removal does not touch workers and redirects: detached tasks stay detached -/
+theorem removeTask_free {s s' : State} {id u : TaskId} {st : TS} (hf : Free s u)
+    (h : s.removeTask id = .ok (s', st)) : Free s' u := by
+  obtain ⟨_, hw, hr, _, _⟩ := removeTask_spec h
+  unfold Free; rw [hw, hr]; exact hf
+
+/-! ### `on_new_tasks` -/
+
+theorem registerDeps_rel (deps : List TaskId) (ts : List Task) (id : TaskId) :
+    ConsRel (some id) ts (registerDeps ts id deps).1 := by
+  induction deps generalizing ts with
+  | nil => exact ConsRel.refl _ _
+  | cons d rest ih =>
+    simp only [registerDeps]
+    split
+    · exact ih ts
+    · rename_i dep hd
+      have hid : dep.id = d := findTask_some_id hd
+      refine ConsRel.trans (ConsRel.put (told := dep) (t' := { dep with consumers :=
+        if (dep.consumers.contains id) then dep.consumers else dep.consumers ++ [id] }) (by simpa [hid] using hd) rfl rfl ?_) (ih _)
+      intro y hy
+      simp only at hy
+      split at hy
+      · exact Or.inl hy
+      · rcases List.mem_append.mp hy with h | h
+        · exact Or.inl h
+        · simp only [List.mem_singleton] at h; exact Or.inr (by rw [h])
+
+/-- a new Waiting task with an unknown id is added after its consumer registrations -/
+theorem Inv4.add_task {ts ts1 ws rd rqs} (h : Inv4 ts ws rd rqs) {task : Task} (hr : ConsRel (some task.id) ts ts1)
+    (hn : findTask ts1 task.id = none) (hs : isWaiting task.state) (hc : task.consumers = []) :
+    Inv4 (ts1 ++ [task]) ws rd rqs := by
+  have hfa := findTask_append ts1 task
+  have hst1 : ∀ u, stOf ts1 u = stOf ts u := hr.stOf
+  have hmono : ∀ u st, stOf ts u = some st → stOf (ts1 ++ [task]) u = some st := by
+    intro u st hu
+    rw [← hst1] at hu
+    obtain ⟨x, hx, e⟩ := stOf_some hu
+    unfold stOf; rw [hfa, hx]; simp [e]
+  refine ⟨?_, h.ls.extend hmono, ?_, ?_⟩
+  · simp only [taskIds, List.map_append, List.map_cons, List.map_nil]
+    rw [List.nodup_append]
+    refine ⟨by have := h.nd; rw [← hr.1] at this; exact this, by simp, ?_⟩
+    intro a ha b hb
+    simp only [List.mem_singleton] at hb
+    subst hb; intro e; subst e
+    exact not_mem_of_findTask_none hn ha
+  · intro d dt hd c hcm st hst
+    -- the state of `c` in the new map
+    have hcst : c = task.id ∨ stOf ts c = some st := by
+      unfold stOf at hst; rw [hfa] at hst
+      cases hf : findTask ts1 c with
+      | none =>
+        rw [hf] at hst
+        simp only at hst
+        split at hst
+        · rename_i e; exact Or.inl e.symm
+        · cases hst
+      | some x =>
+        rw [hf] at hst
+        right; rw [← hst1]; unfold stOf; rw [hf]; exact hst
+    rw [hfa] at hd
+    cases hf : findTask ts1 d with
+    | none =>
+      rw [hf] at hd
+      simp only at hd
+      split at hd
+      · cases hd; rw [hc] at hcm; cases hcm
+      · cases hd
+    | some x =>
+      rw [hf] at hd; cases hd
+      rcases hcst with e | hcs
+      · -- the new task itself
+        subst e
+        unfold stOf at hst; rw [hfa, hn] at hst
+        simp at hst; rw [← hst]; exact hs
+      · -- an old task: it was a consumer before (or it is the new id, which is impossible as it has a state)
+        cases hf0 : findTask ts d with
+        | none => rw [(hr.2 d).1 hf0] at hf; cases hf
+        | some x0 =>
+          obtain ⟨x', hx', _, _, e3⟩ := (hr.2 d).2 x0 hf0
+          rw [hx'] at hf; cases hf
+          rcases e3 c hcm with h1 | h1
+          · exact h.cw d x0 hf0 c h1 st hcs
+          · cases h1
+            rw [← hst1] at hcs
+            unfold stOf at hcs; rw [hn] at hcs; cases hcs
+  · intro t tk l hf hsl
+    rw [hfa] at hf
+    cases hf1 : findTask ts1 t with
+    | none =>
+      rw [hf1] at hf
+      simp only at hf
+      split at hf
+      · cases hf; rw [hsl] at hs; cases hs
+      · cases hf
+    | some x =>
+      rw [hf1] at hf; cases hf
+      cases hf0 : findTask ts t with
+      | none => rw [(hr.2 t).1 hf0] at hf1; cases hf1
+      | some x0 =>
+        obtain ⟨x', hx', e1, e2, _⟩ := (hr.2 t).2 x0 hf0
+        rw [hx'] at hf1; cases hf1
+        rw [e2]; exact h.mn t x0 l hf0 (e1 ▸ hsl)
+
+theorem addNewTasks_inv (nts : List NewTask) (s s' : State) (r r' : List TaskId)
+    (hi : Inv s) (h : s.addNewTasks nts r = .ok (s', r')) : Inv s' := by
+  induction nts generalizing s r with
+  | nil => simp only [State.addNewTasks] at h; cases h; exact hi
+  | cons nt rest ih =>
+    simp only [State.addNewTasks] at h
+    have hreg := registerDeps_rel nt.deps s.tasks nt.id
+    generalize registerDeps s.tasks nt.id nt.deps = reg at h hreg
+    obtain ⟨ts, kept, n⟩ := reg
+    simp only at h hreg
+    split at h
+    · cases h
+    · rename_i hf
+      have hnone : findTask ts nt.id = none := by
+        cases hx : findTask ts nt.id with
+        | none => rfl
+        | some x => simp [hx] at hf
+      have key : ∀ task : Task, task.id = nt.id → isWaiting task.state → task.consumers = [] →
+          Inv4 (ts ++ [task]) s.workers s.redirects s.rqs := by
+        intro task e1 e2 e3
+        exact Inv4.add_task hi (by rw [e1]; exact hreg) (by rw [e1]; exact hnone) e2 e3
+      split at h
+      · split at h
+        · cases h
+        · rename_i s2 r2 ha
+          have hc := addReady_core ha
+          refine ih _ _ ?_ h
+          unfold Inv
+          simp only [hc.t, hc.w, hc.r, hc.q]
+          exact key _ rfl (by trivial) rfl
+      · refine ih _ _ ?_ h
+        exact key _ rfl (by trivial) rfl
+
+theorem newTasks_inv {s s' : State} {nts : List NewTask} {o : Out} (hi : Inv s) (h : s.newTasks nts = .ok (s', o)) :
+    Inv s' := by
+  simp only [State.newTasks] at h
+  split at h
+  · cases h
+  · split at h
+    · cases h
+    · rename_i s1 retracted h1
+      split at h
+      · cases h
+      · rename_i s2 out h2
+        cases h
+        exact (CoreEq.ask s2).inv (retract_inv (addNewTasks_inv _ _ _ _ _ hi h1) h2)
+
+/-! ### resetting multi-node workers -/
+
+theorem emptySn_views (wk : Worker) : wAsg wk.emptySn = [] ∧ wPre wk.emptySn = [] ∧ wMn wk.emptySn = none ∧
+    wk.emptySn.id = wk.id := ⟨rfl, rfl, rfl, rfl⟩
+
+/-- `reset_mn_task` on a list of workers, for ANY task map -/
+theorem resetMnAll_ls (l : List Nat) (s s' : State) {ts : List Task}
+    (hl : LS3 ts s.workers s.redirects) (h : resetMnAll s l = .ok s') :
+    LS3 ts s'.workers s'.redirects ∧ Shr s.workers s.redirects s'.workers s'.redirects ∧
+    s'.tasks = s.tasks ∧ s'.redirects = s.redirects ∧ s'.rqs = s.rqs ∧ ∀ x ∈ l, mnW s'.workers x = none := by
+  induction l generalizing s with
+  | nil =>
+    simp only [resetMnAll] at h; cases h
+    exact ⟨hl, Shr.refl _ _, rfl, rfl, rfl, fun _ hx => by cases hx⟩
+  | cons w rest ih =>
+    simp only [resetMnAll] at h
+    split at h
+    · cases h
+    · rename_i wk hg
+      have hfw := getWorker_spec hg
+      have hwid : wk.id = w := findWorker_some_id hfw
+      have hfw' : findWorker s.workers wk.emptySn.id = some wk := by simpa [Worker.emptySn, hwid] using hfw
+      have hl1 : LS3 ts (s.setWorker wk.emptySn).workers (s.setWorker wk.emptySn).redirects :=
+        hl.mv_worker_shrink hfw' (List.nil_sublist _) (List.nil_sublist _) (fun u hu => by cases hu)
+      have hs1 : Shr s.workers s.redirects (s.setWorker wk.emptySn).workers (s.setWorker wk.emptySn).redirects :=
+        Shr.put hfw' (List.nil_sublist _) (List.nil_sublist _) (fun u hu => by cases hu)
+      obtain ⟨a, b, c, d, e, f⟩ := ih _ hl1 h
+      refine ⟨a, hs1.trans b, c, d, e, ?_⟩
+      intro x hx
+      simp only [List.mem_cons] at hx
+      rcases hx with rfl | hx
+      · -- reset here; later resets only shrink
+        cases hm : mnW s'.workers x with
+        | none => rfl
+        | some u =>
+          have := b.m x u hm
+          have e2 : mnW (putWorker s.workers wk.emptySn) x = none := by
+            rw [mnW_put hfw']; simp [Worker.emptySn, hwid, wMn]
+          rw [show (s.setWorker wk.emptySn).workers = putWorker s.workers wk.emptySn from rfl, e2] at this
+          cases this
+      · exact f x hx
+
+theorem resetMnChecked_ls (l : List Nat) (s s' : State) (id : TaskId) {ts : List Task}
+    (hl : LS3 ts s.workers s.redirects) (h : resetMnChecked s id l = .ok s') :
+    LS3 ts s'.workers s'.redirects ∧ Shr s.workers s.redirects s'.workers s'.redirects ∧
+    s'.tasks = s.tasks ∧ s'.redirects = s.redirects ∧ s'.rqs = s.rqs ∧ ∀ x ∈ l, mnW s'.workers x = none := by
+  induction l generalizing s with
+  | nil =>
+    simp only [resetMnChecked] at h; cases h
+    exact ⟨hl, Shr.refl _ _, rfl, rfl, rfl, fun _ hx => by cases hx⟩
+  | cons w rest ih =>
+    simp only [resetMnChecked] at h
+    split at h
+    · cases h
+    · rename_i wk hg
+      split at h
+      · split at h
+        · cases h
+        · have hfw := getWorker_spec hg
+          have hwid : wk.id = w := findWorker_some_id hfw
+          have hfw' : findWorker s.workers wk.emptySn.id = some wk := by simpa [Worker.emptySn, hwid] using hfw
+          have hl1 : LS3 ts (s.setWorker wk.emptySn).workers (s.setWorker wk.emptySn).redirects :=
+            hl.mv_worker_shrink hfw' (List.nil_sublist _) (List.nil_sublist _) (fun u hu => by cases hu)
+          have hs1 : Shr s.workers s.redirects (s.setWorker wk.emptySn).workers (s.setWorker wk.emptySn).redirects :=
+            Shr.put hfw' (List.nil_sublist _) (List.nil_sublist _) (fun u hu => by cases hu)
+          obtain ⟨a, b, c, d, e, f⟩ := ih _ hl1 h
+          refine ⟨a, hs1.trans b, c, d, e, ?_⟩
+          intro x hx
+          simp only [List.mem_cons] at hx
+          rcases hx with rfl | hx
+          · cases hm : mnW s'.workers x with
+            | none => rfl
+            | some u =>
+              have := b.m x u hm
+              have e2 : mnW (putWorker s.workers wk.emptySn) x = none := by
+                rw [mnW_put hfw']; simp [Worker.emptySn, hwid, wMn]
+              rw [show (s.setWorker wk.emptySn).workers = putWorker s.workers wk.emptySn from rfl, e2] at this
+              cases this
+          · exact f x hx
+      · cases h
+
+/-- a multi-node task none of whose workers is reserved for it any more is free -/
+theorem LS3.free_of_mn {ts ws rd} (h : LS3 ts ws rd) {t : TaskId} {l : List Nat}
+    (hs : stOf ts t = some (.runningMN l)) (hn : ∀ x, mnW ws x ≠ some t) : Free3 ws rd t := by
+  have ha1 := h.a1
+  have ha2 := h.a2
+  have hd1 := h.d1
+  refine ⟨?_, ?_, hn, ?_⟩
+  · grind [Holds]
+  · grind
+  · grind
+
+/-- after resetting every worker of the task's list -/
+theorem free_after_reset {ts ws rd ws'} (h : LS3 ts ws rd) (h' : LS3 ts ws' rd) {t : TaskId} {l : List Nat}
+    (hs : stOf ts t = some (.runningMN l)) (hshr : Shr ws rd ws' rd) (hnone : ∀ x ∈ l, mnW ws' x = none) :
+    Free3 ws' rd t := by
+  refine h'.free_of_mn hs ?_
+  intro x hx
+  obtain ⟨l', h1, h2⟩ := h.m1 x t (hshr.m x t hx)
+  rw [hs] at h1; cases h1
+  rw [hnone x h2] at hx; cases hx
+
+/-! ### `on_cancel_tasks` -/
+
+theorem mem_unionTids {a b : List TaskId} {x : TaskId} : x ∈ unionTids a b ↔ x ∈ a ∨ x ∈ b := by
+  unfold unionTids
+  induction b generalizing a with
+  | nil => simp
+  | cons y ys ih =>
+    simp only [List.foldl_cons]
+    rw [ih]
+    by_cases hc : a.contains y = true
+    · simp only [hc, if_true, List.mem_cons]
+      have : y ∈ a := by simpa using hc
+      constructor
+      · rintro (h | h)
+        · exact Or.inl h
+        · exact Or.inr (Or.inr h)
+      · rintro (h | h | h)
+        · exact Or.inl h
+        · subst h; exact Or.inl this
+        · exact Or.inr h
+    · simp only [hc, List.mem_cons, Bool.false_eq_true, if_false, List.mem_append, List.mem_singleton, List.not_mem_nil, or_false]
+      constructor
+      · rintro ((h | h) | h)
+        · exact Or.inl h
+        · exact Or.inr (Or.inl h)
+        · exact Or.inr (Or.inr h)
+      · rintro (h | h | h)
+        · exact Or.inl (Or.inl h)
+        · exact Or.inl (Or.inr h)
+        · exact Or.inr h
+
+/-- everything `collect_recursive_consumers` returns is a registered consumer of a task in the map -/
+theorem collectConsumers_mem (ts : List Task) (fuel : Nat) (stack out res : List TaskId)
+    (h : collectConsumers ts fuel stack out = .ok res) :
+    ∀ c ∈ res, c ∈ out ∨ ∃ d dt, findTask ts d = some dt ∧ c ∈ dt.consumers := by
+  induction fuel generalizing stack out with
+  | zero => simp only [collectConsumers] at h; cases h; exact fun c hc => Or.inl hc
+  | succ n ih =>
+    cases stack with
+    | nil => simp only [collectConsumers] at h; cases h; exact fun c hc => Or.inl hc
+    | cons t rest =>
+      simp only [collectConsumers] at h
+      split at h
+      · cases h
+      · rename_i task ht
+        intro c hc
+        rcases ih _ _ h c hc with h1 | h1
+        · rcases List.mem_append.mp h1 with h2 | h2
+          · exact Or.inl h2
+          · right
+            have := (List.mem_filter.mp (List.mem_eraseDups.mp h2)).1
+            exact ⟨t, task, ht, this⟩
+        · exact Or.inr h1
+
+theorem recursiveConsumers_mem {s : State} {id : TaskId} {task : Task} {cons : List TaskId}
+    (ht : findTask s.tasks id = some task) (h : s.recursiveConsumers task = .ok cons) :
+    ∀ c ∈ cons, ∃ d dt, findTask s.tasks d = some dt ∧ c ∈ dt.consumers := by
+  intro c hc
+  simp only [State.recursiveConsumers] at h
+  rcases collectConsumers_mem _ _ _ _ _ h c hc with h1 | h1
+  · exact ⟨id, task, ht, List.mem_eraseDups.mp h1⟩
+  · exact h1
+
+/-- a registered consumer of a task in the map is free (it is Waiting or unknown) -/
+theorem Inv.free_of_consumer {s : State} (hi : Inv s) {c : TaskId}
+    (hc : ∃ d dt, findTask s.tasks d = some dt ∧ c ∈ dt.consumers) : Free s c := by
+  obtain ⟨d, dt, hd, hcm⟩ := hc
+  apply hi.free_of_state
+  cases hs : stOf s.tasks c with
+  | none => exact Or.inl rfl
+  | some st =>
+    have := hi.cw d dt hd c hcm st hs
+    cases st <;> simp only [isWaiting] at this
+    exact Or.inr (Or.inl ⟨_, rfl⟩)
+
+theorem cancel_step {s s1 : State} {id : TaskId} {task : Task} {cons unreg : List TaskId}
+    (ht : findTask s.tasks id = some task) (hcons : s.recursiveConsumers task = .ok cons)
+    (hu : ∀ x ∈ unreg, Free s x) (hi1 : Inv s1) (hshr : Shr s.workers s.redirects s1.workers s1.redirects)
+    (htasks : s1.tasks = s.tasks) (hfree : Free s1 id) :
+    ∀ x ∈ unionTids (unionTids unreg [id]) cons, Free s1 x := by
+  intro x hx
+  rcases mem_unionTids.mp hx with h1 | h1
+  · rcases mem_unionTids.mp h1 with h2 | h2
+    · exact hshr.free (hu x h2)
+    · simp only [List.mem_singleton] at h2; subst h2; exact hfree
+  · apply hi1.free_of_consumer
+    rw [htasks]
+    exact recursiveConsumers_mem ht hcons x h1
+
+/-- the sets of a worker after `remove_sn_task` / `remove_prefill_task` -/
+theorem removeSn_detach {s : State} {ts : List Task} (hl : LS3 ts s.workers s.redirects) {w : Nat} {id : TaskId} {r : Rq}
+    {s1 : State} (h : s.withWorker w (·.removeSn id r) = .ok s1) :
+    LS3 ts s1.workers s1.redirects ∧ Shr s.workers s.redirects s1.workers s1.redirects ∧
+    s1.tasks = s.tasks ∧ s1.redirects = s.redirects ∧ s1.rqs = s.rqs ∧
+    (∀ st, stOf ts id = some st → ((∃ v, st = .assigned w v) ∨ (∃ v, st = .running w v)) → Free3 s1.workers s1.redirects id) := by
+  obtain ⟨wk, wk', hfw, hf, rfl⟩ := withWorker_spec h
+  obtain ⟨A, F, P, F', ha, _, hm, rfl⟩ := removeSn_spec hf
+  have hwid : wk.id = w := findWorker_some_id hfw
+  refine ⟨?_, ?_, rfl, rfl, rfl, ?_⟩
+  · exact hl.mv_worker_shrink (wk := wk) (by simpa [hwid] using hfw) (by simp [wAsg, ha]; exact List.erase_sublist)
+      (by simp [wPre, ha]) (by simp [wMn, ha])
+  · exact Shr.put (wk := wk) (by simpa [hwid] using hfw) (by simp [wAsg, ha]; exact List.erase_sublist)
+      (by simp [wPre, ha]) (by simp [wMn, ha])
+  · intro st hs hst
+    exact hl.free_after_removeSn (wk := wk) hs (by simpa [hwid] using hst) (by simpa [hwid] using hfw)
+      (by simp [wAsg, ha]) (by simp [wPre, ha]) (by simp [wMn, ha])
+
+theorem removePrefill_detach {s : State} {ts : List Task} (hl : LS3 ts s.workers s.redirects) {w : Nat} {id : TaskId}
+    {s1 : State} (h : s.withWorker w (·.removePrefill id) = .ok s1) :
+    LS3 ts s1.workers s1.redirects ∧ Shr s.workers s.redirects s1.workers s1.redirects ∧
+    s1.tasks = s.tasks ∧ s1.redirects = s.redirects ∧ s1.rqs = s.rqs ∧
+    Free3 s1.workers s1.redirects id ∧ stOf ts id = some (.prefilled w) := by
+  obtain ⟨wk, wk', hfw, hf, rfl⟩ := withWorker_spec h
+  obtain ⟨A, F, P, ha, hm, rfl⟩ := removePrefill_spec hf
+  have hwid : wk.id = w := findWorker_some_id hfw
+  refine ⟨?_, ?_, rfl, rfl, rfl, ?_, ?_⟩
+  · exact hl.mv_worker_shrink (wk := wk) (by simpa [hwid] using hfw) (by simp [wAsg, ha])
+      (by simp [wPre, ha]; exact List.erase_sublist) (by simp [wMn, ha])
+  · exact Shr.put (wk := wk) (by simpa [hwid] using hfw) (by simp [wAsg, ha])
+      (by simp [wPre, ha]; exact List.erase_sublist) (by simp [wMn, ha])
+  · exact hl.free_after_removePrefill (wk := wk) (by simp [wPre, ha]; exact hm) (by simpa [hwid] using hfw)
+      (by simp [wAsg, ha]) (by simp [wPre, ha]) (by simp [wMn, ha])
+  · apply hl.a2
+    rw [preW_of_find hfw]; simp [wPre, ha]; exact hm
+
+theorem cancelLoop_inv (ids : List TaskId) (s s' : State) (u u' : List TaskId) (r r' : List (Nat × List TaskId))
+    (hi : Inv s) (hu : ∀ x ∈ u, Free s x) (h : s.cancelLoop ids u r = .ok (s', u', r')) :
+    Inv s' ∧ ∀ x ∈ u', Free s' x := by
+  induction ids generalizing s u r with
+  | nil => simp only [State.cancelLoop] at h; cases h; exact ⟨hi, hu⟩
+  | cons id rest ih =>
+    simp only [State.cancelLoop, State.task?] at h
+    split at h
+    · exact ih _ _ _ hi hu h
+    · rename_i task ht
+      have hst := stOf_of_find ht
+      split at h
+      · cases h
+      · rename_i cons hcons
+        split at h
+        · -- waiting
+          rename_i n hs
+          refine ih _ _ _ ((CoreEq.ask s).inv hi) ?_ h
+          exact cancel_step ht hcons hu ((CoreEq.ask s).inv hi) (Shr.refl _ _) rfl
+            ((CoreEq.ask s).free (hi.free_of_state (Or.inr (Or.inl ⟨n, by rw [hst, hs]⟩))))
+        · -- assigned
+          rename_i w rv hs
+          split at h
+          · cases h
+          · rename_i rq hrq
+            split at h
+            · cases h
+            · rename_i s1 hw
+              obtain ⟨a, b, c, d, e, f⟩ := removeSn_detach hi.ls hw
+              have hi1 : Inv s1 := by
+                unfold Inv; rw [c, e]; exact hi.workers a
+              refine ih _ _ _ ((CoreEq.ask s1).inv hi1) ?_ h
+              exact cancel_step ht hcons hu ((CoreEq.ask s1).inv hi1) b c
+                (f _ (by rw [hst, hs]) (Or.inl ⟨rv, rfl⟩))
+        · -- running
+          rename_i w rv hs
+          split at h
+          · cases h
+          · rename_i rq hrq
+            split at h
+            · cases h
+            · rename_i s1 hw
+              obtain ⟨a, b, c, d, e, f⟩ := removeSn_detach hi.ls hw
+              have hi1 : Inv s1 := by
+                unfold Inv; rw [c, e]; exact hi.workers a
+              refine ih _ _ _ ((CoreEq.ask s1).inv hi1) ?_ h
+              exact cancel_step ht hcons hu ((CoreEq.ask s1).inv hi1) b c
+                (f _ (by rw [hst, hs]) (Or.inr ⟨rv, rfl⟩))
+        · -- multi-node
+          rename_i ws hs
+          split at h
+          · cases h
+          · rename_i s1 hr
+            obtain ⟨a, b, c, d, e, f⟩ := resetMnAll_ls _ _ _ hi.ls hr
+            have hi1 : Inv s1 := by
+              unfold Inv; rw [c, e]; exact hi.workers a
+            split at h
+            · cases h
+            · refine ih _ _ _ ((CoreEq.ask s1).inv hi1) ?_ h
+              have hfree : Free3 s1.workers s1.redirects id := by
+                rw [d] at a b ⊢
+                exact free_after_reset hi.ls a (by rw [hst, hs]) b f
+              exact cancel_step ht hcons hu ((CoreEq.ask s1).inv hi1) b c hfree
+        · -- retracting
+          rename_i w hs
+          split at h
+          · cases h
+          · rename_i s1 hr
+            obtain ⟨a, b, _, f⟩ := tryRemoveRedirection_ls hi.ls hr
+            obtain ⟨c, e, _⟩ := tryRemoveRedirection_spec hr
+            have hi1 : Inv s1 := by
+              unfold Inv; rw [c, e]; exact hi.workers a
+            refine ih _ _ _ ((CoreEq.ask s1).inv hi1) ?_ h
+            exact cancel_step ht hcons hu ((CoreEq.ask s1).inv hi1) b c (f w (by rw [hst, hs]))
+        · -- prefilled
+          rename_i w hs
+          split at h
+          · cases h
+          · rename_i s1 hq
+            have hc := removePrefilled_core hq
+            have hi1 := hc.inv hi
+            split at h
+            · cases h
+            · rename_i s2 hw
+              obtain ⟨a, b, c, d, e, f, _⟩ := removePrefill_detach hi1.ls hw
+              have hi2 : Inv s2 := by
+                unfold Inv; rw [c, e]; exact hi1.workers a
+              refine ih _ _ _ hi2 ?_ h
+              have b' : Shr s.workers s.redirects s2.workers s2.redirects := by
+                rw [← hc.w, ← hc.r]; exact b
+              exact cancel_step ht hcons hu hi2 b' (c.trans hc.t) f
+        · cases h
+
+theorem removeTasksBatched_inv (ids : List TaskId) (s s' : State) (hi : Inv s) (hu : ∀ x ∈ ids, Free s x)
+    (h : s.removeTasksBatched ids = .ok s') : Inv s' := by
+  induction ids generalizing s with
+  | nil => simp only [State.removeTasksBatched] at h; cases h; exact hi
+  | cons t rest ih =>
+    simp only [State.removeTasksBatched] at h
+    split at h
+    · cases h
+    · rename_i s1 st h1
+      refine ih _ (removeTask_inv hi (hu t (by simp)) h1) ?_ h
+      intro x hx
+      exact removeTask_free (hu x (by simp [hx])) h1
+
+theorem cancelTasks_inv {s s' : State} {ids : List TaskId} {o : Out} (hi : Inv s)
+    (h : s.cancelTasks ids = .ok (s', o)) : Inv s' := by
+  simp only [State.cancelTasks] at h
+  split at h
+  · cases h
+  · rename_i s1 unreg running h1
+    split at h
+    · cases h
+    · rename_i s2 h2
+      cases h
+      obtain ⟨a, b⟩ := cancelLoop_inv _ _ _ _ _ _ _ hi (fun _ hx => by cases hx) h1
+      exact removeTasksBatched_inv _ _ _ a b h2
+
 end HqModel.Core
